@@ -102,6 +102,24 @@ fn run(r: &mut Run) -> Result<(), MachineryError> {
             check_line(&line, cx);
         }
     })?;
+    // two and three unusual characters next to each other (the all-characters pass above has one)
+    r.range("C11/representative-pairs", &format!("{}; each pair (x,y) in the lines \"xy\", \"axyb\", \"x y\", \"xy-yx z\", \"yx xy\" x both separators", reps::pair_desc(t)), reps::pair_space(t), move |i, cx| {
+        let (x, y) = reps::pair_at(t2, i);
+        cx.seq = idx_seq(i);
+        for line in [format!("{x}{y}"), format!("a{x}{y}b"), format!("{x} {y}"), format!("{x}{y}-{y}{x} z"), format!("{y}{x} {x}{y}")] {
+            cx.set_input(&line);
+            check_line(&line, cx);
+        }
+    })?;
+    let tb = reps::triple_chars(t);
+    r.range("C11/representative-triples", &format!("{}; each triple (x,y,z) as the lines \"xyz\" and \"ax yzb\" x both separators", reps::triple_desc(t)), reps::triple_space(t), move |i, cx| {
+        let (x, y, z) = reps::triple_at(&tb, i);
+        cx.seq = idx_seq(i);
+        for line in [format!("{x}{y}{z}"), format!("a{x} {y}{z}b")] {
+            cx.set_input(&line);
+            check_line(&line, cx);
+        }
+    })?;
     // the escape grammar's byte ranges (bytes 0x21..=0x7F as CSI final / OSC payload byte)
     r.range("C11/escape-grammar-scan", "for every byte b in 0x21..=0x7F the lines \"ESC[1bX12 345\" and \"ESC]8bX BEL 12 345\" x both separators", 95 * 2, move |i, cx| {
         let b = (0x21 + (i % 95)) as u8 as char;
